@@ -201,7 +201,11 @@ fn c06_byte_separator() {
 static mut INT_SEQ: [i64; 2] = [0; 2];
 static mut INT_CALLS: usize = 0;
 
-fn int_lex_stub(input: &str) -> LexResult<'_, i64> {
+// `where 'i: 'i` makes the lifetime early-bound, like the impl-level lifetime of the original
+fn int_lex_stub<'i>(input: &'i str) -> LexResult<'i, i64>
+where
+    'i: 'i,
+{
     unsafe {
         let v = INT_SEQ[INT_CALLS & 1];
         INT_CALLS += 1;
@@ -209,47 +213,64 @@ fn int_lex_stub(input: &str) -> LexResult<'_, i64> {
     }
 }
 
-/// `a..b`: accepted exactly when a <= b, denoting a..=b; a single value is v..=v.
+/// `a..b`: accepted exactly when a <= b, denoting a..=b.
 #[kani::proof]
-#[kani::unwind(5)]
+#[kani::unwind(3)]
 #[kani::stub(<i64 as crate::lex::Lex>::lex, int_lex_stub)]
 fn c06_int_range_rule() {
     use crate::rhs_types::IntRange;
     let a: i64 = kani::any();
     let b: i64 = kani::any();
-    let single: bool = kani::any();
     unsafe {
         INT_SEQ = [a, b];
         INT_CALLS = 0;
     }
-    let text = if single { "1;" } else { "1..2;" };
-    let res = IntRange::lex(text);
+    let res = IntRange::lex("1..2;");
     match &res {
         Ok((r, rest)) => {
             let r: std::ops::RangeInclusive<i64> = r.into();
-            if single {
-                assert!(*r.start() == a && *r.end() == a, "a single value must denote the one-value range");
-            } else {
-                assert!(a <= b, "reversed integer range accepted");
-                assert!(*r.start() == a && *r.end() == b, "range bounds differ from the literal's bounds");
-            }
+            assert!(a <= b, "reversed integer range accepted");
+            assert!(*r.start() == a && *r.end() == b, "range bounds differ from the literal's bounds");
             assert!(rest.len() == 1, "range literal consumed a different number of characters");
         }
         Err((kind, _)) => {
-            assert!(!single && a > b, "ordered integer range rejected");
+            assert!(a > b, "ordered integer range rejected");
             assert!(matches!(kind, LexErrorKind::IncompatibleRangeBounds));
         }
     }
-    kani::cover!(res.is_ok() && !single && a == i64::MIN && b == i64::MAX);
+    kani::cover!(res.is_ok() && a == i64::MIN && b == i64::MAX);
     kani::cover!(res.is_err() && a == i64::MAX && b == i64::MIN);
-    kani::cover!(res.is_ok() && !single && a == b);
-    kani::cover!(res.is_ok() && single);
+    kani::cover!(res.is_ok() && a == b);
+    std::mem::forget(res);
+}
+
+/// A single value v denotes v..=v.
+#[kani::proof]
+#[kani::unwind(3)]
+#[kani::stub(<i64 as crate::lex::Lex>::lex, int_lex_stub)]
+fn c06_int_single_rule() {
+    use crate::rhs_types::IntRange;
+    let a: i64 = kani::any();
+    unsafe {
+        INT_SEQ = [a, a];
+        INT_CALLS = 0;
+    }
+    let res = IntRange::lex("1;");
+    match &res {
+        Ok((r, rest)) => {
+            let r: std::ops::RangeInclusive<i64> = r.into();
+            assert!(*r.start() == a && *r.end() == a, "a single value must denote the one-value range");
+            assert!(rest.len() == 1);
+        }
+        Err(_) => assert!(false, "a single value rejected"),
+    }
+    kani::cover!(res.is_ok() && a == i64::MIN);
     std::mem::forget(res);
 }
 
 /// `[n]`: an array index is accepted exactly when 0 <= n <= 2^32-1 and denotes n.
 #[kani::proof]
-#[kani::unwind(5)]
+#[kani::unwind(2)]
 #[kani::stub(<i64 as crate::lex::Lex>::lex, int_lex_stub)]
 fn c06_index_literal_rule() {
     use crate::scheme::FieldIndex;
